@@ -1,5 +1,6 @@
 import Hv.Driver.Core
 import Hv.Vmdk
+import Hv.VmdkDesc
 import Hv.Prim.Inflate
 namespace Hv.Driver
 open Hv
@@ -35,6 +36,81 @@ def vmdkCmd (st : St) : List String → String
       | .ok (v, _) => runStreamSec v.read (some v.readSectors) v.size a (rest.drop k)
       | .error e => s!"err {e}"
     | _, _ => "bad-args"
+  | _ => "bad-cmd"
+
+end Hv.Driver
+
+namespace Hv.Driver
+open Hv
+
+def hexToString (h : String) : Option String :=
+  (parseHex h).bind (fun b => String.fromUTF8? b)
+
+def fileText (f : File) : Option String :=
+  String.fromUTF8? (ByteArray.mk (f.read 0 f.size).toArray)
+
+def optS (o : Option (List Char)) : String := match o with | some s => "S" ++ hexOf (String.ofList s).toUTF8.toList | none => "N"
+def optN (o : Option Nat) : String := match o with | some n => toString n | none => "N"
+def hx (s : List Char) : String := hexOf (String.ofList s).toUTF8.toList
+
+def descSummary (d : VmdkDesc.Desc) : String :=
+  let ex := d.extents.map (fun e => s!"{hx e.access},{e.sectors},{hx e.type},{optS e.filename},{optN e.start},{optS e.uuid},{optS e.dev}")
+  let kv := fun (l : List (List Char × List Char)) => ";".intercalate (l.map (fun p => s!"{hx p.1}={hx p.2}"))
+  s!"ok sectors={d.sectors} extents=[{"|".intercalate ex}] attr=[{kv d.attr}] ddb=[{kv d.ddb}]"
+
+/-- `VMDK(descriptor)` given the directory listing `names` (file name → file) -/
+def vmdkOpenDescriptor (desc : File) (names : List (String × File)) : Except Err (Vmdk.Vmdk × VmdkDesc.Desc) := do
+  let some text := fileText desc | throw .other
+  let d := VmdkDesc.parse text.toList
+  -- self.descriptor.attr["parentCID"]: KeyError when absent; a parent (≠ ffffffff) is C07's business
+  let some pcid := VmdkDesc.dictGet d.attr "parentCID".toList | throw .index
+  if pcid ≠ "ffffffff".toList then throw .other
+  let mut mk : List (Nat → Vmdk.Disk) := []
+  for e in d.extents do
+    match VmdkDesc.wire e.type with
+    | .dropped => pure ()
+    | w =>
+      -- path.with_name(extent.filename).open("rb")
+      let some fname := e.filename | throw .other
+      let some (_, fh) := names.find? (fun p => p.1.toList = fname) | throw .other
+      match w with
+      | .sparse =>
+        let sp ← Vmdk.openSparse fh none 0 Inflate.zlibInflate
+        mk := mk ++ [fun so => Vmdk.sparseDisk { sp with sectorOffset := so }]
+      | _ => mk := mk ++ [fun so => Vmdk.rawDisk fh (some (e.sectors * 512)) so]
+  pure (Vmdk.assemble mk, d)
+
+def parseNames (st : St) (toks : List String) : Except Err (List (String × File)) :=
+  toks.mapM fun t => match t.splitOn "=" with
+    | [h, id] => match hexToString h, st.file? id with
+      | some n, some f => .ok (n, f)
+      | _, _ => .error .other
+    | _ => .error .other
+
+def vmdkDescCmd (st : St) : List String → String
+  | ["desc.parse", h] =>
+    match hexToString h with
+    | some t => descSummary (VmdkDesc.parse t.toList)
+    | none => "err decode"
+  | ["desc.line", h] =>
+    match hexToString h with
+    | some t => match VmdkDesc.parseExtentLine t.toList with
+      | some e => s!"ok {hx e.access},{e.sectors},{hx e.type},{optS e.filename},{optN e.start},{optS e.uuid},{optS e.dev}"
+      | none => "none"
+    | none => "err decode"
+  | "vmdk.desc.open" :: did :: names =>
+    match st.file? did, parseNames st names with
+    | some df, .ok ns => match vmdkOpenDescriptor df ns with
+      | .ok (v, d) => s!"ok size={v.size} disks={v.disks.size} {descSummary d}"
+      | .error e => s!"err {e}"
+    | _, _ => "bad-args"
+  | "vmdk.desc.stream" :: align :: did :: nn :: rest =>
+    match align.toNat?, nn.toNat?, st.file? did with
+    | some a, some k, some df =>
+      match parseNames st (rest.take k) >>= vmdkOpenDescriptor df with
+      | .ok (v, _) => runStreamSec v.read (some v.readSectors) v.size a (rest.drop k)
+      | .error e => s!"err {e}"
+    | _, _, _ => "bad-args"
   | _ => "bad-cmd"
 
 end Hv.Driver
